@@ -12,13 +12,13 @@ open Irismod.GoSem Irismod.Gen.PureMt Irismod.Mt
 theorem mt_all_translated : Irismod.Gen.PureMt.untranslated = [] := rfl
 theorem mt_translated_pinned : Irismod.Gen.PureMt.translated =
     ["AddBalance_balance_1(read_k_GetBalance_ctx_denomID_mtID_addr)",
-     "AddBalance_balance_2(balance,amount)",
      "AddBalance_guard_1(balance,amount)",
+     "AddBalance_balance_2(balance,amount)",
      "SubBalance_balance_1(read_k_GetBalance_ctx_denomID_mtID_addr)",
      "SubBalance_balance_2(balance,amount)",
      "IncreaseMTSupply_supply_1(read_k_GetMTSupply_ctx_denomID_mtID)",
-     "IncreaseMTSupply_supply_2(supply,amount)",
      "IncreaseMTSupply_guard_1(supply,amount)",
+     "IncreaseMTSupply_supply_2(supply,amount)",
      "decreaseMTSupply_supply_1(read_k_GetMTSupply_ctx_denomID_mtID)",
      "decreaseMTSupply_supply_2(supply,amount)"] := rfl
 
